@@ -673,6 +673,11 @@ func leafEnv(info *types.Info, fd *ast.FuncDecl) map[types.Object]leafBinding {
 					src, kind = call.Args[0], "key"
 				}
 			}
+			if kid, isId := ast.Unparen(src).(*ast.Ident); isId {
+				if kb, bound := env[info.ObjectOf(kid)]; bound && kb.kind == "keyslice" {
+					src, kind = kb.expr, "key"
+				}
+			}
 			if isMapType(info.TypeOf(src)) && kind == "elem" {
 				if id, ok := x.Key.(*ast.Ident); ok && id.Name != "_" {
 					env[info.ObjectOf(id)] = leafBinding{src, "key"}
@@ -703,7 +708,18 @@ func leafEnv(info *types.Info, fd *ast.FuncDecl) map[types.Object]leafBinding {
 			if len(x.Lhs) == 1 && len(x.Rhs) == 1 && x.Tok == token.DEFINE {
 				if id, ok := x.Lhs[0].(*ast.Ident); ok {
 					switch rhs := ast.Unparen(x.Rhs[0]).(type) {
+					case *ast.CallExpr:
+						// keys := maps.Keys(X): the sorted keys of X
+						if o := load.Callee(info, rhs); o != nil && o.Name() == "Keys" && len(rhs.Args) == 1 {
+							env[info.ObjectOf(id)] = leafBinding{rhs.Args[0], "keyslice"}
+						}
 					case *ast.IndexExpr:
+						if kid, isId := ast.Unparen(rhs.X).(*ast.Ident); isId {
+							if kb, bound := env[info.ObjectOf(kid)]; bound && kb.kind == "keyslice" {
+								env[info.ObjectOf(id)] = leafBinding{kb.expr, "key"}
+								break
+							}
+						}
 						if isMapType(info.TypeOf(rhs.X)) {
 							env[info.ObjectOf(id)] = leafBinding{rhs.X, "mapelem"}
 						} else {
@@ -751,6 +767,15 @@ func leafOf(info *types.Info, env map[types.Object]leafBinding, e ast.Expr, dept
 			return out
 		}
 	case *ast.IndexExpr:
+		if kid, isId := ast.Unparen(x.X).(*ast.Ident); isId {
+			if kb, bound := env[info.ObjectOf(kid)]; bound && kb.kind == "keyslice" {
+				var out []string
+				for _, l := range leafOf(info, env, kb.expr, depth+1) {
+					out = append(out, l+"(key)")
+				}
+				return out
+			}
+		}
 		base := leafOf(info, env, x.X, depth+1)
 		var out []string
 		for _, l := range base {
@@ -926,7 +951,7 @@ func c11Todo(e *Env) {
 			if u, ok := cond.(*ssa.UnOp); ok && u.Op == token.NOT {
 				cond, neg = u.X, true
 			}
-			if c, ok := cond.(*ssa.Call); ok && c.Call.StaticCallee() != nil && c.Call.StaticCallee().Origin() != nil && c.Call.StaticCallee().Origin().Name() == "Dereference" && derivesFromField(c.Call.Args[0], "Todo", 0) {
+			if isTodoTest(cond) {
 				// the dynamic validator calls must be in the same function as the test
 				dyn := 0
 				for _, dc := range callsIn(cand, false) {
@@ -969,6 +994,25 @@ func c11Todo(e *Env) {
 	r.Check(okAttr && n >= 1, "R11.5", key+"#attributes-behind-not-todo", fmt.Sprintf("the attribute validators run only when the service is not todo (%d dynamic validator calls)", n))
 }
 
+// isTodoTest: cond is ptr.Dereference(<x>.Todo, …), written out or through a one-line predicate of the
+// package (`func isTodoService(s Service) bool { return ptr.Dereference(s.Todo, Default) }`).
+func isTodoTest(cond ssa.Value) bool {
+	c, ok := cond.(*ssa.Call)
+	if !ok || c.Call.StaticCallee() == nil {
+		return false
+	}
+	g := c.Call.StaticCallee()
+	if o := g.Origin(); o != nil && o.Name() == "Dereference" && len(c.Call.Args) > 0 && derivesFromField(c.Call.Args[0], "Todo", 0) {
+		return true
+	}
+	if len(g.Blocks) == 1 {
+		if ret, isRet := g.Blocks[0].Instrs[len(g.Blocks[0].Instrs)-1].(*ssa.Return); isRet && len(ret.Results) == 1 {
+			return isTodoTest(ret.Results[0])
+		}
+	}
+	return false
+}
+
 func c11DupTags(e *Env) {
 	r := e.R
 	key := inputRel + ".ValidateServiceTags#duplicate-tags"
@@ -978,24 +1022,83 @@ func c11DupTags(e *Env) {
 		return
 	}
 	var maps []ssa.Value
-	allInstrs(fn, func(_ *ssa.Function, ins ssa.Instruction) {
-		if mu, ok := ins.(*ssa.MapUpdate); ok && derivesFromField(mu.Key, "Name", 0) {
-			maps = append(maps, mu.Map)
+	// the counting may live in a helper that returns the counter map
+	helperMaps := map[*ssa.Function]bool{}
+	for _, f := range unitFns(fn, 1) {
+		allInstrs(f, func(_ *ssa.Function, ins ssa.Instruction) {
+			if mu, ok := ins.(*ssa.MapUpdate); ok && derivesFromField(mu.Key, "Name", 0) {
+				if f == fn {
+					maps = append(maps, mu.Map)
+				} else {
+					for _, b := range f.Blocks {
+						if ret, isRet := b.Instrs[len(b.Instrs)-1].(*ssa.Return); isRet && len(ret.Results) == 1 && ret.Results[0] == mu.Map {
+							helperMaps[f] = true
+						}
+					}
+				}
+			}
+		})
+	}
+	for _, c := range callsIn(fn, true) {
+		if g := c.Common().StaticCallee(); g != nil && helperMaps[g] && c.Value() != nil {
+			maps = append(maps, c.Value())
 		}
-	})
+	}
+	// values that are "the count of one name": a lookup in the map, or the value parameter of a callback that
+	// maps.Iterate runs over the map
+	countParam := map[ssa.Value]bool{}
+	for _, c := range callsIn(fn, true) {
+		g := c.Common().StaticCallee()
+		if g == nil || len(c.Common().Args) != 2 {
+			continue
+		}
+		nm := g.Name()
+		if o := g.Origin(); o != nil {
+			nm = o.Name()
+		}
+		if nm != "Iterate" {
+			continue
+		}
+		isCounter := false
+		for _, m := range maps {
+			if c.Common().Args[0] == m || sameCell(c.Common().Args[0], m) {
+				isCounter = true
+			}
+		}
+		if !isCounter {
+			continue
+		}
+		var cb *ssa.Function
+		switch f := c.Common().Args[1].(type) {
+		case *ssa.MakeClosure:
+			cb, _ = f.Fn.(*ssa.Function)
+		case *ssa.Function:
+			cb = f
+		}
+		if cb != nil && len(cb.Params) == 2 {
+			countParam[cb.Params[1]] = true
+		}
+	}
+	readsCount := func(cond ssa.Value) bool {
+		for _, m := range maps {
+			if condReadsMap(cond, m, 0) {
+				return true
+			}
+		}
+		if bo, ok := cond.(*ssa.BinOp); ok && (countParam[bo.X] || countParam[bo.Y]) {
+			return true
+		}
+		return false
+	}
 	found := false
-	for _, s := range errorSites([]*ssa.Function{fn}) {
+	for _, s := range errorSites(append([]*ssa.Function{fn}, fn.AnonFuncs...)) {
 		for d := s.call.Block(); d != nil; d = d.Idom() {
 			id := d.Idom()
 			if id == nil {
 				break
 			}
-			if iff, ok := id.Instrs[len(id.Instrs)-1].(*ssa.If); ok {
-				for _, m := range maps {
-					if condReadsMap(iff.Cond, m, 0) {
-						found = true
-					}
-				}
+			if iff, ok := id.Instrs[len(id.Instrs)-1].(*ssa.If); ok && readsCount(iff.Cond) {
+				found = true
 			}
 		}
 	}
